@@ -196,12 +196,38 @@ func GenC07(r *hx.Rng, tier string, w io.Writer) {
 	x.sub("subd", "-")
 	fmt.Fprintln(w, "restart")
 	fmt.Fprintln(w, "incl")
+	// initial heights above 1: everything on the DA layer, then inclusion (also across a clean restart and with
+	// the unmodified loop goroutine)
+	for ih := uint64(2); ih <= 4; ih++ {
+		x.reset(ih, 0)
+		fmt.Fprintln(w, "incl")
+		x.produce(false)
+		x.produce(true)
+		x.sub("subh", "-")
+		x.sub("subd", "-")
+		fmt.Fprintln(w, "incl")
+		fmt.Fprintln(w, "restart")
+		x.produce(false)
+		x.sub("subh", "-")
+		x.sub("subd", "-")
+		if ih == 3 {
+			fmt.Fprintln(w, "inclreal")
+		} else {
+			fmt.Fprintln(w, "incl")
+		}
+		fmt.Fprintln(w, "crash keep=9")
+		fmt.Fprintln(w, "incl")
+	}
 	n := 60
 	if tier == "thorough" {
 		n = 900
 	}
 	for i := 0; i < n; i++ {
-		x.reset(1, 0)
+		ih := uint64(1)
+		if r.Chance(15) {
+			ih = 2 + uint64(r.Intn(3))
+		}
+		x.reset(ih, 0)
 		steps := 5 + r.Intn(16)
 		crashes := r.Chance(15)
 		for j := 0; j < steps; j++ {
